@@ -9,6 +9,7 @@
 
   seeded.py check-all [--only-missing] [id ...]  `check` for every seeded/<id>; outcomes recorded in seeded/results.json
   seeded.py meta-refresh                      copy the outcome of confirm.json into the 'confirmed' field of meta.json
+  seeded.py summary                           rewrite the per-property summary table in DESIGN.md section 10
   seeded.py readme                            regenerate seeded/README.md from meta.json + results.json (+ seeded/NOTES.md)
   seeded.py stage <agent-out-dir> Cxx k       copy the agent's patch<k>.diff / demo<k>.py / notes<k>.md to seeded/Cxx-m<k>/
 
@@ -184,8 +185,16 @@ def check_all(only_missing, ids):
         res[name] = {"check": rows[0]["property"], "caught": rows[0]["exit"] == 1, "exit": rows[0]["exit"], "wall_s": rows[0]["wall_s"],
                      "violations": rows[0]["violations"], "first": rows[0]["first"], "verif_commit": head.strip()}
         print(name, "caught" if res[name]["caught"] else "MISSED (exit %s)" % rows[0]["exit"], rows[0]["wall_s"], flush=True)
-        with open(rp, "w") as f:
-            json.dump(res, f, indent=1, sort_keys=True)
+        # several check-all runs may work on different ids at the same time: merge under a lock
+        import fcntl
+
+        with open(rp + ".lock", "w") as lk:
+            fcntl.flock(lk, fcntl.LOCK_EX)
+            cur = json.load(open(rp)) if os.path.exists(rp) else {}
+            cur[name] = res[name]
+            with open(rp, "w") as f:
+                json.dump(cur, f, indent=1, sort_keys=True)
+            res = cur
     return 0
 
 
@@ -242,6 +251,39 @@ def meta_refresh():
     return 0
 
 
+def summary():
+    """rewrite the seeded summary of DESIGN.md (between the markers <!-- seeded-summary:begin/end -->) from results.json"""
+    import re
+
+    rp = os.path.join(VERIF, "seeded", "results.json")
+    res = json.load(open(rp)) if os.path.exists(rp) else {}
+    props = {}
+    for name in sorted(os.listdir(os.path.join(VERIF, "seeded"))):
+        if not os.path.exists(os.path.join(VERIF, "seeded", name, "patch.diff")):
+            continue
+        props.setdefault(name.split("-")[0], []).append(name)
+    lines = ["| Prop | caught by the property's quick tier | not caught | wall (s) |", "|---|---|---|---|"]
+    tot = [0, 0]
+    for p in sorted(props):
+        c = [n for n in props[p] if res.get(n, {}).get("caught")]
+        m = [n for n in props[p] if n in res and not res[n]["caught"]]
+        nr = [n for n in props[p] if n not in res]
+        tot[0] += len(c)
+        tot[1] += len(m)
+        walls = [res[n]["wall_s"] for n in c]
+        lines.append("| %s | %s | %s | %s |" % (p, ", ".join(n.split("-")[1] for n in c) or "-",
+                                              ", ".join(n.split("-")[1] for n in m + ["%s (not run)" % x for x in nr]) or "-",
+                                              "%.0f-%.0f" % (min(walls), max(walls)) if walls else ""))
+    lines.append("| all | %d | %d | |" % tuple(tot))
+    path = os.path.join(VERIF, "DESIGN.md")
+    s = open(path).read()
+    new = "<!-- seeded-summary:begin -->\n" + "\n".join(lines) + "\n<!-- seeded-summary:end -->"
+    s = re.sub(r"<!-- seeded-summary:begin -->.*?<!-- seeded-summary:end -->", lambda m: new, s, flags=re.S)
+    open(path, "w").write(s)
+    print("caught %d, missed %d" % tuple(tot))
+    return 0
+
+
 def stage(src, prop, k):
     """copy <src>/patch<k>.diff, demo<k>.py, notes<k>.md to seeded/<prop>-m<k>/"""
     d = os.path.join(VERIF, "seeded", "%s-m%s" % (prop, k))
@@ -264,6 +306,8 @@ if __name__ == "__main__":
         raise SystemExit(__doc__)
     if sys.argv[1] == "check-all":
         sys.exit(check_all("--only-missing" in sys.argv, [a for a in sys.argv[2:] if not a.startswith("-")]))
+    if sys.argv[1] == "summary":
+        sys.exit(summary())
     if sys.argv[1] == "meta-refresh":
         sys.exit(meta_refresh())
     if sys.argv[1] == "readme":
